@@ -13,7 +13,7 @@ NOTE_A = ("trusted base: cosmos-sdk store/bank, the go runtime; transactions run
 
 checks = {
     "C01": dict(engine="chainmc", cat="model_checking", tech="explicit-state BFS over real-handler histories; conservation oracle per state + per-address flow equation per transition",
-                text="All histories over the S-escrow/S-leased/S-life alphabets (same-block pairs, overdraft gaps) up to the depth bound are executed on the real app; in every reachable state module balance == sum of recorded balances, and on every transition each address's bank delta equals what its escrow records account for.", ref="6 C01"),
+                text="All histories over the S-poor (an account that cannot pay for everything it asks: failing bank transfers) / S-escrow / S-leased / S-life alphabets (same-block pairs, overdraft gaps) up to the depth bound are executed on the real app; in every reachable state module balance == sum of recorded balances, and on every transition each address's bank delta equals what its escrow records account for.", ref="6 C01"),
     "C03": dict(engine="chainmc", cat="model_checking", tech="explicit-state BFS over real-handler histories; escrow consistency invariants + close-takes-effect + final-is-final per transition",
                 text="Every reachable state satisfies payment-open=>account-open, closed=>zero balance, real ExportGenesis passes real ValidateGenesis, nothing open=>module empty; every successful close leaves the named record non-open, including zero-block and zero-balance closes.", ref="6 C03"),
     "C04": dict(engine="chainmc", cat="model_checking", tech="explicit-state BFS over real-handler histories; cross-record lifecycle invariants on every reachable state",
@@ -35,17 +35,17 @@ checks = {
                 text="accept <=> oracle in both directions for every pair of the grammar (splits, merges, reorderings, near-miss units, endpoint kinds); version check over all (on-chain version, update events, manifest) triples; every single-field mutation changes the hash and every JSON key order leaves it unchanged.", ref="6 C10",
                 note="trusted base: encoding/json, sha256; the update-event handling of manager.run is transcribed in the in-package harness and guarded by a source-text check (exit 2 on drift)"),
     "C08": dict(engine="chainmc", cat="model_checking", tech="exhaustive small-scope comparison of GroupSpec.MatchRequirements with a set-theoretic oracle + explicit-state BFS over histories in which attestations and provider records change between bids",
-                text="186,624 requirement/own-attribute/auditor-list/attestation combinations agree with the statement's oracle; on every accepted CreateBid of S-attr / S-attr-leased the pre-state satisfies every admission condition; every accepted UpdateProvider leaves attributes covering all of the provider's active leases.", ref="6 C08"),
-    "C09": dict(engine="inputmc", cat="exploration", tech="exhaustive enumeration of certificate catalogue x chain state x route x path variables; real TLS handshakes against the real rest.NewServer handler/TLS config; real x/cert keeper and querier behind the query client",
+                text="2.6 million requirement/own-attribute/auditor-list/attestation combinations (attribute values incl. the empty string; also through Order.MatchAttributes) agree with the statement's oracle; on every accepted CreateBid of S-attr / S-attr-leased the pre-state satisfies every admission condition; every accepted UpdateProvider leaves attributes covering all of the provider's active leases.", ref="6 C08"),
+    "C09": dict(engine="inputmc", cat="exploration", tech="exhaustive enumeration of certificate catalogue x chain state x route x path variables; real TLS handshakes against the real rest.NewServer handler/TLS config; real x/cert keeper and querier behind the query client; ordered sequences of presentations on one gateway; every interleaving of 2 (thorough: 3) overlapping verifications at the chain-lookup boundaries under the controlled scheduler; a menu of untruthful chain answers (error, empty, two, revoked, other bytes, nil)",
                 text="For every certificate kind (genuine, forged same CN+serial, revoked, unknown, expired, not-yet-valid, wrong usage, chains, issuer CN mismatch, non-bech32 CN) x on-chain state x every route x path variables of both tenants: a request is authenticated as X only if the presented leaf is byte-identical to X's valid on-chain certificate inside its validity with client-auth usage, and every lease/deployment id reaching the provider clients has Owner == authenticated CN and Provider == this provider.", ref="6 C09",
-                note="trusted base: crypto/tls proof of key possession, crypto/x509; validity windows are placed years away from time.Now()"),
+                note="trusted base: crypto/tls proof of key possession, crypto/x509; validity windows are placed years away from time.Now(). A supplementary free-running -race pass of the overlapping-verification bodies runs first (skipped, and said so, when cgo is unavailable)"),
     "C11": dict(engine="inputmc", cat="exploration", tech="exhaustive enumeration of lease ids x manifest grammar x provider settings through the real kube builders and the real client.Deploy against client-go fake clientsets; semantic NetworkPolicy model",
                 text="Every object produced by the builders and found in the fake cluster after Deploy / re-Deploy is in (or selects only) the lease namespace; containers unprivileged, no escalation, no service-account token, limits == leased, 0 < requests <= limits; lidNS injective and DNS-1123 valid over the colliding id set; network policies admit outside ingress only from the ingress controller or to globally exposed ports and no egress to private ranges outside the namespace.", ref="6 C11",
-                note="trusted base: Kubernetes enforcement of the generated objects; client-go fake tracker (extended with DeleteCollection); one known finding (stale per-service policy after update) is listed in known_findings.json"),
+                note="trusted base: Kubernetes enforcement of the generated objects; client-go fake tracker (extended with DeleteCollection). Environment faults: every kube API call position of Deploy answers an error (quick: one, thorough: every ordered pair) and the oracle is evaluated on the cluster state left behind; settings toggle sequences across provider restarts. Two genuine defects found here are repaired (known_findings.json: fixed)"),
     "C19": dict(engine="chainmc", cat="model_checking", tech="exhaustive boundary grid (all singles and pairs, thorough: arithmetic triples, of every limit at/just beyond its bound plus overflow candidates) through ValidateBasic + real handler vs. an independent math/big predicate; stored-state predicate on every reachable state",
                 text="No create-deployment request of the grid that violates any limit (group count, unique names, unit count, per-unit cpu/memory/storage/replicas/price, denomination, group totals, 32-byte version, minimum deposit) is admitted, in the initial and in a populated state, and rejected requests leave the state hash unchanged; every deployment stored in any reachable state of S-life satisfies the predicate.", ref="6 C19"),
-    "C07": dict(engine="chainmc", cat="model_checking", tech="explicit-state BFS with every transition re-executed under every enumerated map-iteration start (runtime overlay pins mapiterinit's random draw per goroutine): 8 offsets x up to 4 start buckets for all iterations, then per-iteration for the first 6",
-                text="For every transaction in every explored state, executions with every enumerated Go map iteration order produce byte-identical state writes, result data, error and events, and agree with the free-running execution; all map iterations performed by akash code were over single-bucket maps, for which the 8 start offsets are all possible orders.", ref="6 C07",
+    "C07": dict(engine="chainmc", cat="model_checking", tech="explicit-state BFS with every transition re-executed (a) on a freshly started application instance holding a copy of the stores, (b) after an attempt aborted at every out-of-gas cut point, (c) with the wall clock shifted by +-10 years, (d) under every enumerated map-iteration start (runtime overlay pins mapiterinit's random draw per goroutine): 8 offsets x up to 4 start buckets for all iterations, then per-iteration for the first 6",
+                text="For every transaction in every explored state (incl. S-params: chain parameters changed through x/params), all these re-executions produce byte-identical state writes, result data, error, events and gas consumed, and agree with the free-running execution; all map iterations performed by akash code were over single-bucket maps, for which the 8 start offsets are all possible orders.", ref="6 C07",
                 note="trusted base: determinism of cosmos-sdk / tendermint infrastructure over multi-bucket maps (varied over 32 starts of one layout, not exhaustively: layout depends on the per-map hash seed); handlers read no clock or randomness; patched copy of runtime/map.go supplied through -overlay (GOROOT untouched)"),
     "C15": dict(engine="gosched", cat="model_checking", tech="stateless exhaustive exploration of all interleavings (unbounded preemptions, history-hash pruning) of the real instrumented pubsub bus + go-lifecycle under a controlled cooperative scheduler; per-execution stream oracle",
                 text="For 20 (quick) / 25 (thorough) client configurations (publishers, subscribers that read / stall / close, concurrent Clone, closers of a subscriber or the bus, all subscriber map-iteration rotations) every interleaving at channel/select/sync granularity is executed on the real code: each subscriber's stream is duplicate-free, gap-free and in publication order, a clone receives exactly what the original had not handed out plus later events, and every Publish/Subscribe/Clone/Close call returns.", ref="6 C15",
